@@ -46,10 +46,50 @@ Definition chk_best (c : best_case) : bool :=
   | Some (t, v), Some (t', v') => Z.eqb t t' && opt_eqb Qeqb v v'
   | _, _ => false
   end.
+
+(* RegularizedEvolution: (is_min, population_size, updates (trial, metric), implementation's population scores) *)
+Definition rea_case := (bool * nat * list (Z * Q) * list Q)%type.
+Definition chk_rea (c : rea_case) : bool :=
+  let '(is_min, n, ups, impl) := c in
+  let pop := fold_left (fun p tm => rea_update (md_of is_min) n p (fst tm) (snd tm)) ups [] in
+  list_eqb Qeqb (map snd pop) impl.
+
+(* MOASHA._metric_dict: (per-metric is_min, reported values, signed values the priority function received) *)
+Definition mo_case := (list bool * list Q * list Q)%type.
+Definition chk_mo (c : mo_case) : bool :=
+  let '(modes, vals, impl) := c in list_eqb Qeqb (moasha_metric_dict (map md_of modes) vals) impl.
+
+(* ExperimentResult.best_config: (is_min, metric column, row index of the returned config) *)
+Definition bc_case := (bool * list Q * option nat)%type.
+Definition chk_bc (c : bc_case) : bool :=
+  let '(is_min, col, impl) := c in opt_eqb Nat.eqb (best_index (md_of is_min) col) impl.
+
+(* PromotionRungSystem call sequences: (is_min, max_t, rungs top down (level, quantile), calls with observed outputs) *)
+Definition optZ_eqb := opt_eqb Z.eqb.
+Definition pout_eqb (a b : pout) : bool :=
+  match a, b with
+  | POSched SNone, POSched SNone => true
+  | POSched (SPromote t rf ms), POSched (SPromote t' rf' ms') => Z.eqb t t' && Z.eqb rf rf' && Z.eqb ms ms'
+  | POSched SAssert, POSched SAssert => true
+  | POAdd x, POAdd y => Bool.eqb x y
+  | POReport (inl (tc, mr, nm, ig)), POReport (inl (tc', mr', nm', ig')) =>
+      Bool.eqb tc tc' && Bool.eqb mr mr' && optZ_eqb nm nm' && Bool.eqb ig ig'
+  | POReport (inr PKeyRunning), POReport (inr PKeyRunning) => true
+  | POReport (inr PAssertMilestone), POReport (inr PAssertMilestone) => true
+  | POReport (inr PAssertInRung), POReport (inr PAssertInRung) => true
+  | PODone, PODone => true
+  | _, _ => false
+  end.
+Definition prom_case := (bool * Z * list (Z * Q) * list (pevent * pout))%type.
+Definition chk_prom (c : prom_case) : bool :=
+  let '(is_min, max_t, rungs, calls) := c in
+  let sys := {| ps_rungs := map (fun lq => {| pr_level := fst lq; pr_quant := snd lq; pr_data := [] |}) rungs;
+                ps_running := [] |} in
+  list_eqb pout_eqb (snd (prun (md_of is_min) max_t sys (map fst calls))) (map snd calls).
 """
 
 KINDS = ["hb_stopping", "hb_promotion", "hb_pasha", "hb_rush_stopping", "hb_rush_promotion",
-         "sync_hb", "median", "pbt", "fifo"]
+         "sync_hb", "median", "pbt", "fifo", "dehb", "rea", "moasha"]
 
 # rung levels whose promotion quantiles level/next level never put a rung entry exactly on the quantile
 # ((n-1) * q is not an integer for any rung size n reachable here): no decision threshold coincides with a metric value
@@ -103,6 +143,25 @@ def gen_pair_spec(rng, kind):
         spec["type"] = typ
         if typ.startswith("rush"):
             spec["num_threshold_candidates"] = rng.choice([0, 1, 2])
+    elif kind == "dehb":
+        spec.update(max_t=rng.choice([9, 16, 27]), grace_period=rng.choice([1, 1, 2]), reduction_factor=rng.choice([2, 3]),
+                    brackets=rng.choice([None, 1, 2]), max_trials=rng.randint(8, 60))
+    elif kind == "rea":
+        spec.update(max_t=rng.choice([1, 2, 3]), population_size=rng.choice([2, 3, 5, 8]), sample_size=rng.choice([1, 2, 3]),
+                    max_trials=rng.randint(6, 40))
+    elif kind == "moasha":
+        nmet = rng.randint(1, 3)
+        style = rng.choice(["list", "list", "str"])
+        if style == "str":
+            base = rng.choice(["min", "max"])
+            mask = [True] * nmet
+        else:
+            base = [rng.choice(["min", "max"]) for _ in range(nmet)]
+            mask = [rng.random() < 0.6 for _ in range(nmet)]
+            if not any(mask):
+                mask[rng.randrange(nmet)] = True
+        spec.update(max_t=rng.choice([9, 16, 27]), grace_period=rng.choice([1, 1, 2]), reduction_factor=rng.choice([2, 3]),
+                    brackets=rng.randint(1, 3), nmet=nmet, base_modes=base, mask=mask, max_trials=rng.randint(5, 25))
     elif kind == "sync_hb":
         spec.update(max_t=rng.choice([9, 16, 27]), grace_period=rng.choice([1, 1, 2]), reduction_factor=rng.choice([2, 3]),
                     brackets=rng.choice([None, 1, 2]), max_trials=rng.randint(6, 40))
@@ -121,10 +180,43 @@ def gen_pair_spec(rng, kind):
     return spec
 
 
-def build_scheduler(spec, mode):
-    from syne_tune.config_space import uniform, randint
+def flip(m):
+    return "max" if m == "min" else "min"
+
+
+def moasha_modes(spec, variant):
+    base, mask = spec["base_modes"], spec["mask"]
+    if variant == 0:
+        return base
+    if isinstance(base, str):
+        return flip(base)  # all metrics flip
+    return [flip(m) if f else m for m, f in zip(base, mask)]
+
+
+def build_scheduler(spec, variant):
+    from syne_tune.config_space import uniform, randint, choice
+    mode = "min" if variant == 0 else "max"
     cs = {"x": uniform(0, 1), "k": randint(0, 20)}
     kind = spec["sched"]
+    if kind == "dehb":
+        from syne_tune.optimizer.schedulers.synchronous.hyperband_impl import GeometricDifferentialEvolutionHyperbandScheduler
+        return GeometricDifferentialEvolutionHyperbandScheduler(
+            cs, metric="m", mode=mode, resource_attr="epoch", max_resource_level=spec["max_t"],
+            grace_period=spec["grace_period"], reduction_factor=spec["reduction_factor"], brackets=spec["brackets"],
+            random_seed=spec["seed"])
+    if kind == "rea":
+        from syne_tune.optimizer.schedulers.fifo import FIFOScheduler
+        from syne_tune.optimizer.schedulers.searchers.regularized_evolution import RegularizedEvolution
+        cs2 = {"x": uniform(0, 1), "k": randint(0, 20), "c": choice(["a", "b", "c"])}
+        rea = RegularizedEvolution(cs2, metric="m", mode=mode, population_size=spec["population_size"],
+                                   sample_size=spec["sample_size"], random_seed=spec["seed"])
+        return FIFOScheduler(cs2, searcher=rea, metric="m", mode=mode, random_seed=spec["seed"])
+    if kind == "moasha":
+        from syne_tune.optimizer.schedulers.multiobjective.moasha import MOASHA
+        np.random.seed(spec["seed"] % (2 ** 31))  # MOASHA draws configs and brackets from the global numpy generator
+        return MOASHA(cs, metrics=["m%d" % i for i in range(spec["nmet"])], mode=moasha_modes(spec, variant),
+                      time_attr="epoch", max_t=spec["max_t"], grace_period=spec["grace_period"],
+                      reduction_factor=spec["reduction_factor"], brackets=spec["brackets"])
     if kind.startswith("hb_"):
         from syne_tune.optimizer.schedulers.hyperband import HyperbandScheduler
         s = dict(spec, mode=mode)
@@ -171,12 +263,23 @@ def metric_of(spec, overrides, t, r):
     return _random.Random("%d-%d-%d" % (spec["table_seed"], t, r)).uniform(0.05, 1.0)
 
 
-def run_one(spec, mode, sign, overrides, limit=None):
+def result_of(spec, variant, overrides, tid, r):
+    if spec["sched"] == "moasha":
+        res = {"epoch": r}
+        for i in range(spec["nmet"]):
+            v = metric_of(spec, overrides, tid * 10 + i, r)
+            res["m%d" % i] = -v if (variant == 1 and spec["mask"][i]) else v
+        return res
+    v = metric_of(spec, overrides, tid, r)
+    return {"epoch": r, "m": v if variant == 0 else -v}
+
+
+def run_one(spec, variant, overrides, limit=None):
     """Simulated tuner loop (harness side) over the public scheduler API. Returns the trace: list of
     ('suggest', canonical suggestion) / ('result', trial, resource, decision) entries."""
     import random as _random
     U.quiet()
-    sch = build_scheduler(spec, mode)
+    sch = build_scheduler(spec, variant)
     oh = None
     if spec["sched"].startswith("hb_"):
         oh = U.OneHotBrackets(sch.num_brackets)
@@ -213,7 +316,8 @@ def run_one(spec, mode, sign, overrides, limit=None):
                 trials[tid] = U.mk_trial(tid, sug.config)
                 resource[tid] = 0
                 running.append(tid)
-                sch.on_trial_add(trials[tid])
+                with contextlib.redirect_stdout(sink):
+                    sch.on_trial_add(trials[tid])
                 trace.append(("suggest", ["new", tid, sug.checkpoint_trial_id, canon_config(sug.config)]))
             else:
                 tid = int(sug.checkpoint_trial_id)
@@ -232,9 +336,10 @@ def run_one(spec, mode, sign, overrides, limit=None):
         tid = rng.choice(running)
         resource[tid] += 1
         r = resource[tid]
-        m = sign * metric_of(spec, overrides, tid, r)
+        result = result_of(spec, variant, overrides, tid, r)
         try:
-            dec = sch.on_trial_result(trials[tid], {"epoch": r, "m": m})
+            with contextlib.redirect_stdout(sink):
+                dec = sch.on_trial_result(trials[tid], dict(result))
         except Exception as e:  # same exception in both modes is not a mode asymmetry; the traces are compared
             trace.append(("raised", tid, r, type(e).__name__))
             break
@@ -248,7 +353,7 @@ def run_one(spec, mode, sign, overrides, limit=None):
             sch.on_trial_remove(trials[tid])
         elif r >= max_t:
             running.remove(tid)
-            sch.on_trial_complete(trials[tid], {"epoch": r, "m": m})
+            sch.on_trial_complete(trials[tid], dict(result))
     return trace
 
 
@@ -298,8 +403,8 @@ def is_tie_boundary(spec, trace, k, overrides):
 
 def run_pair(ctx, spec, overrides=None):
     overrides = dict(overrides or {})
-    a = run_one(spec, "min", 1.0, overrides)
-    b = run_one(spec, "max", -1.0, overrides)
+    a = run_one(spec, 0, overrides)
+    b = run_one(spec, 1, overrides)
     k = first_divergence(a, b)
     boundary = 0
     if k is not None and k < len(a) and is_tie_boundary(spec, a, k, overrides):
@@ -309,6 +414,8 @@ def run_pair(ctx, spec, overrides=None):
     n_dec = sum(1 for e in a if e[0] == "result")
     n_nontrivial = sum(1 for e in a if e[0] == "result" and e[3] != "CONTINUE") + \
         sum(1 for e in a if e[0] == "suggest" and e[1] and e[1][0] == "resume")
+    if spec["sched"] == "rea":  # suggestions by mutation of the best sampled parent (population full)
+        n_nontrivial = max(0, sum(1 for e in a if e[0] == "suggest" and e[1]) - spec["population_size"] - spec["workers"])
     return a, b, k, boundary, n_dec, n_nontrivial
 
 
@@ -450,6 +557,283 @@ def unit_cases(ctx, replay):
                           failing_input=False, broken="correspondence chk_best (model/ModeCores.v best_metric_found)")
 
 
+class RecPriority:
+    """harness-side MOPriority: records the (signed) objective matrix MOASHA hands to the priority function"""
+
+    def __init__(self):
+        self.calls = []
+
+    def __call__(self, objectives):
+        self.calls.append(np.array(objectives, dtype=float).tolist())
+        return np.arange(len(objectives), dtype=float)
+
+
+def unit_cases2(ctx, replay):
+    from syne_tune.config_space import uniform, randint, choice
+    rng = ctx.rng
+    U.quiet()
+    # ---- RegularizedEvolution population ----
+    from syne_tune.optimizer.schedulers.searchers.regularized_evolution import RegularizedEvolution
+    cases = []
+    if replay is None:
+        for _ in range(ctx.n(150, 2000)):
+            cases.append(dict(kind="rea", mode=rng.choice(["min", "max"]), population_size=rng.randint(1, 6),
+                              ups=[[i, rng.choice([rng.uniform(-2, 2), float(rng.randint(-3, 3))])] for i in range(rng.randint(0, 12))]))
+    elif replay.get("kind") == "rea":
+        cases = [replay]
+    terms = []
+    cs = {"x": uniform(0, 1), "c": choice(["a", "b"])}
+    for c in cases:
+        pops = []
+        for mode, sgn in ((c["mode"], 1.0), (flip(c["mode"]), -1.0)):
+            rea = RegularizedEvolution(cs, metric="m", mode=mode, population_size=c["population_size"], sample_size=1,
+                                       random_seed=0)
+            for t, m in c["ups"]:
+                rea.on_trial_result(str(t), {"x": 0.5, "c": "a"}, {"m": sgn * m}, update=True)
+            pops.append([float(e.score) for e in rea.population])
+        ctx.count(("rea", c), nontrivial=len(c["ups"]) > c["population_size"])
+        ctx.h("unit_kind", "regularized_evolution")
+        if pops[0] != pops[1]:
+            ctx.violation("property", "RegularizedEvolution population scores differ between mode %s on f and the other mode on -f: %r / %r"
+                          % (c["mode"], pops[0], pops[1]), case=c,
+                          signature=dict(searcher="RegularizedEvolution", defect="mode_asymmetry"))
+        terms.append("((%s, %s, %s, %s) : rea_case)" % (
+            blit(c["mode"] == "min"), natlit(c["population_size"]),
+            lst(["(%s, %s)" % (zlit(t), q(m)) for t, m in c["ups"]]), lst([q(x) for x in pops[0]])))
+    if terms:
+        for i in ctx.coq_bad_cases("rea", IMPORTS, PRELUDE, "chk_rea", terms, shard=150):
+            ctx.violation("correspondence", "model rea_update differs from RegularizedEvolution", case=cases[i],
+                          failing_input=False, broken="correspondence chk_rea (model/ModeCores.v rea_update)")
+    # ---- MOASHA signed metrics ----
+    from syne_tune.optimizer.schedulers.multiobjective.moasha import MOASHA
+    cases = []
+    if replay is None:
+        for _ in range(ctx.n(120, 1500)):
+            nmet = rng.randint(1, 4)
+            style = rng.choice(["list", "list", "str", "none"])
+            modes = [rng.choice(["min", "max"]) for _ in range(nmet)] if style == "list" else (
+                rng.choice(["min", "max"]) if style == "str" else None)
+            cases.append(dict(kind="mo", modes=modes, vals=[[rng.uniform(-3, 3) for _ in range(nmet)] for _ in range(2)]))
+    elif replay.get("kind") == "mo":
+        cases = [replay]
+    terms = []
+    for c in cases:
+        nmet = len(c["vals"][0])
+        rec = RecPriority()
+        sch = MOASHA({"x": uniform(0, 1)}, metrics=["m%d" % i for i in range(nmet)], mode=c["modes"], time_attr="epoch",
+                     multiobjective_priority=rec, max_t=9, grace_period=1, reduction_factor=3, brackets=1)
+        with contextlib.redirect_stdout(io.StringIO()):
+            for t in range(2):
+                tr = U.mk_trial(t, {"x": 0.5})
+                sch.on_trial_add(tr)
+                sch.on_trial_result(tr, dict({"epoch": 1}, **{"m%d" % i: c["vals"][t][i] for i in range(nmet)}))
+        ctx.count(("mo", c), nontrivial=isinstance(c["modes"], list) and len(set(c["modes"])) == 2)
+        ctx.h("unit_kind", "moasha_metric_dict")
+        if not rec.calls or len(rec.calls[-1]) != 2:
+            ctx.violation("correspondence", "MOASHA did not call the priority function on the second report", case=c,
+                          failing_input=False, broken="correspondence chk_mo (harness assumption)")
+            continue
+        per = c["modes"] if isinstance(c["modes"], list) else [c["modes"] or "min"] * nmet
+        for t in range(2):
+            want = [v if md == "min" else -v for v, md in zip(c["vals"][t], per)]
+            if rec.calls[-1][t] != want:
+                ctx.violation("property", "MOASHA(mode=%r) hands %r to the priority function for reported %r" % (
+                    c["modes"], rec.calls[-1][t], c["vals"][t]), case=c,
+                    signature=dict(scheduler="MOASHA", defect="metric_sign"))
+            terms.append("((%s, %s, %s) : mo_case)" % (lst([blit(md == "min") for md in per]),
+                                                      lst([q(v) for v in c["vals"][t]]), lst([q(v) for v in rec.calls[-1][t]])))
+    if terms:
+        for i in ctx.coq_bad_cases("mo", IMPORTS, PRELUDE, "chk_mo", terms, shard=200):
+            ctx.violation("correspondence", "model moasha_metric_dict differs from MOASHA", case=cases[i // 2],
+                          failing_input=False, broken="correspondence chk_mo (model/ModeCores.v moasha_metric_dict)")
+    # ---- ExperimentResult.best_config ----
+    import pandas as pd
+    from syne_tune.experiments.experiment_result import ExperimentResult
+    cases = []
+    if replay is None:
+        for _ in range(ctx.n(150, 2000)):
+            n = rng.randint(1, 12)
+            grid = rng.choice([3, 1000])
+            cases.append(dict(kind="bc", mode=rng.choice(["min", "max", ["max", "min"], ["min", "max"]]),
+                              col=[float(rng.randint(0, grid)) if grid < 1000 else rng.uniform(-5, 5) for _ in range(n)]))
+    elif replay.get("kind") == "bc":
+        cases = [replay]
+    terms = []
+    for c in cases:
+        outs = []
+        for flipped in (False, True):
+            mode = c["mode"]
+            if flipped:
+                mode = flip(mode) if isinstance(mode, str) else [flip(mode[0]), mode[1]]
+            col = [-v for v in c["col"]] if flipped else list(c["col"])
+            df = pd.DataFrame({"m": col, "other": [0.0] * len(col), "idx": list(range(len(col))), "st_hidden": [1] * len(col)})
+            er = ExperimentResult(name="x", results=df, metadata={"metric_names": ["m", "other"] if isinstance(mode, list) else ["m"],
+                                                                  "metric_mode": mode}, tuner=None, path=None)
+            res = er.best_config()
+            outs.append(int(res["idx"]))
+            if any(k.startswith("st_") for k in res):
+                outs[-1] = -1
+        m0 = c["mode"] if isinstance(c["mode"], str) else c["mode"][0]
+        ctx.count(("bc", c), nontrivial=len(set(c["col"])) >= 2)
+        ctx.h("unit_kind", "best_config")
+        if outs[0] != outs[1]:
+            ctx.violation("property", "ExperimentResult.best_config picks row %d with mode %s but row %d with the other mode on the negated column"
+                          % (outs[0], m0, outs[1]), case=c, signature=dict(function="ExperimentResult.best_config", defect="mode_asymmetry"))
+        terms.append("((%s, %s, %s) : bc_case)" % (blit(m0 == "min"), lst([q(v) for v in c["col"]]),
+                                                  optlit(outs[0] if outs[0] >= 0 else None, natlit)))
+    if terms:
+        for i in ctx.coq_bad_cases("bc", IMPORTS, PRELUDE, "chk_bc", terms, shard=200):
+            ctx.violation("correspondence", "model best_index differs from ExperimentResult.best_config", case=cases[i],
+                          failing_input=False, broken="correspondence chk_bc (model/ModeCores.v best_index)")
+    # ---- PromotionRungSystem call sequences ----
+    cases = []
+    if replay is None:
+        for _ in range(ctx.n(120, 2000)):
+            p = rng.choice(PROM_SYSTEMS)
+            cases.append(dict(kind="prom", mode=rng.choice(["min", "max"]), levels=list(p["levels"]), max_t=p["max_t"],
+                              quants=[list(x) for x in p["quants"]], script_seed=rng.randint(0, 10 ** 9),
+                              steps=rng.randint(10, 140), max_trials=rng.randint(2, p["max_trials"])))
+    elif replay.get("kind") == "prom":
+        cases = [replay]
+    terms = []
+    for c in cases:
+        outs = [run_promotion_script(c, c["mode"], 1.0), run_promotion_script(c, flip(c["mode"]), -1.0)]
+        calls, observed = outs[0]
+        ctx.count(("prom", c), nontrivial=any(o[0] == "sched" and o[1] is not None for o in observed))
+        ctx.h("unit_kind", "promotion_rung_system")
+        for o in observed:
+            ctx.h("promotion_calls", o[0] if o[0] != "sched" else ("sched_promote" if o[1] is not None else "sched_none"))
+        if outs[0][1] != outs[1][1]:
+            k = first_divergence(outs[0][1], outs[1][1])
+            ctx.violation("property", "PromotionRungSystem: mode %s on f and the other mode on -f diverge at call %s: %r versus %r" % (
+                c["mode"], k, outs[0][1][k] if k is not None and k < len(outs[0][1]) else None,
+                outs[1][1][k] if k is not None and k < len(outs[1][1]) else None), case=c,
+                signature=dict(scheduler="PromotionRungSystem", defect="mode_asymmetry"))
+        rungs = lst(["(%s, %s)" % (zlit(lv), q(a / b))
+                     for lv, (a, b) in reversed(list(zip(c["levels"], c["quants"])))])
+        terms.append("((%s, %s, %s, %s) : prom_case)" % (
+            blit(c["mode"] == "min"), zlit(c["max_t"]), rungs,
+            lst(["(%s, %s)" % (pev_term(ev), pout_term(o)) for ev, o in zip(calls, observed)])))
+    if terms:
+        for i in ctx.coq_bad_cases("prom", IMPORTS, PRELUDE, "chk_prom", terms, shard=40):
+            ctx.violation("correspondence", "model promotion rung system differs from PromotionRungSystem", case=cases[i],
+                          failing_input=False, broken="correspondence chk_prom (model/ModeCores.v prun)")
+
+
+# rung systems whose quantile never coincides with a rung entry for the numbers of trials used
+PROM_SYSTEMS = [dict(levels=[7, 29], max_t=59, quants=[(7, 29), (29, 59)], max_trials=24),
+                dict(levels=[5, 11, 23], max_t=47, quants=[(5, 11), (11, 23), (23, 47)], max_trials=10),
+                dict(levels=[1, 3], max_t=7, quants=[(3, 13), (7, 17)], max_trials=11),
+                dict(levels=[2, 4, 8], max_t=16, quants=[(7, 29), (5, 23), (11, 31)], max_trials=20)]
+
+
+def run_promotion_script(c, mode, sgn):
+    """Drives the real PromotionRungSystem the way HyperbandBracketManager / HyperbandScheduler do."""
+    import random as _random
+    from syne_tune.optimizer.schedulers.hyperband_promotion import PromotionRungSystem
+    rs = PromotionRungSystem(rung_levels=list(c["levels"]), promote_quantiles=[a / b for a, b in c["quants"]], metric="m",
+                             mode=mode, resource_attr="epoch", max_t=c["max_t"])
+    rng = _random.Random(c["script_seed"])
+    calls, outs = [], []
+    running, paused, res, skip = [], [], {}, {}
+    next_id = 0
+
+    def add(t, sk, resume):
+        calls.append(("add", t, sk, resume))
+        try:
+            if resume is None:
+                rs.on_task_add(str(t), skip_rungs=sk, new_config=True)
+            else:
+                rs.on_task_add(str(t), skip_rungs=sk, new_config=False, milestone=resume[0], resume_from=resume[1])
+            outs.append(("add", True))
+        except AssertionError:
+            outs.append(("add", False))
+
+    for _ in range(c["steps"]):
+        x = rng.random()
+        if x < 0.35 and (next_id < c["max_trials"] or paused):
+            ret = rs.on_task_schedule(str(next_id))
+            calls.append(("sched",))
+            if ret.get("trial_id") is not None:
+                t = int(ret["trial_id"])
+                outs.append(("sched", (t, int(ret["resume_from"]), int(ret["milestone"]))))
+                add(t, skip[t], (int(ret["milestone"]), int(ret["resume_from"])))
+                if t in paused:
+                    paused.remove(t)
+                running.append(t)
+            else:
+                outs.append(("sched", None))
+                if next_id < c["max_trials"]:
+                    t = next_id
+                    next_id += 1
+                    skip[t] = rng.choice([0, 0, 0, 1])
+                    res[t] = 0
+                    add(t, skip[t], None)
+                    running.append(t)
+            continue
+        if x < 0.38:
+            t = next_id + 40  # never added
+            calls.append(("report", t, 1, 0.5))
+            outs.append(report(rs, t, 1, sgn * 0.5))
+            continue
+        if not running:
+            continue
+        t = rng.choice(running)
+        y = rng.random()
+        res[t] += 1 if y < 0.97 else 2
+        m = _random.Random("%d-%d-%d" % (c["script_seed"], t, res[t])).uniform(0.05, 1.0)
+        calls.append(("report", t, res[t], m))
+        o = report(rs, t, res[t], sgn * m)
+        outs.append(o)
+        if o[0] == "report" and not o[1]:
+            rs.on_task_remove(str(t))
+            calls.append(("remove", t))
+            outs.append(("done",))
+            running.remove(t)
+            if o[3] is not None:  # paused at a rung (not at max_t): may be promoted later
+                paused.append(t)
+        elif o[0] == "error":
+            rs.on_task_remove(str(t))
+            calls.append(("remove", t))
+            outs.append(("done",))
+            running.remove(t)
+    return calls, outs
+
+
+def report(rs, t, r, m):
+    try:
+        d = rs.on_task_report(str(t), {"epoch": r, "m": m}, skip_rungs=0)
+        return ("report", bool(d["task_continues"]), bool(d["milestone_reached"]),
+                None if d["next_milestone"] is None else int(d["next_milestone"]), bool(d["ignore_data"]))
+    except KeyError:
+        return ("error", "PKeyRunning")
+    except AssertionError as e:
+        return ("error", "PAssertMilestone" if "milestone" in str(e) else "PAssertInRung")
+
+
+def pev_term(ev):
+    if ev[0] == "sched":
+        return "PSchedule"
+    if ev[0] == "add":
+        _, t, sk, resume = ev
+        return "PAdd %s %s %s" % (zlit(t), natlit(sk), optlit(resume, lambda r: "(%s, %s)" % (zlit(r[0]), zlit(r[1]))))
+    if ev[0] == "report":
+        return "PReport %s %s %s" % (zlit(ev[1]), zlit(ev[2]), q(ev[3]))
+    return "PRemove %s" % zlit(ev[1])
+
+
+def pout_term(o):
+    if o[0] == "sched":
+        return "POSched SNone" if o[1] is None else "POSched (SPromote %s %s %s)" % (zlit(o[1][0]), zlit(o[1][1]), zlit(o[1][2]))
+    if o[0] == "add":
+        return "POAdd %s" % blit(o[1])
+    if o[0] == "report":
+        return "POReport (inl (%s, %s, %s, %s))" % (blit(o[1]), blit(o[2]), optlit(o[3], zlit), blit(o[4]))
+    if o[0] == "error":
+        return "POReport (inr %s)" % o[1]
+    return "PODone"
+
+
 def run(ctx, replay=None):
     ctx.rule = ("cases: (a) pairs of whole runs of a real scheduler (HyperbandScheduler stopping / promotion / pasha / "
                 "rush_stopping / rush_promotion, SynchronousGeometricHyperbandScheduler, MedianStoppingRule, "
@@ -461,6 +845,7 @@ def run(ctx, replay=None):
                 "content hash")
     rng = ctx.rng
     unit_cases(ctx, replay)
+    unit_cases2(ctx, replay)
     if replay is None:
         n_each = ctx.n(90, 700)
         specs = [(gen_pair_spec(rng, kind), None) for kind in KINDS for _ in range(n_each)]
